@@ -19,15 +19,35 @@ RULE = ("real tfl.premade models (CalibratedLattice, CalibratedLinear, Calibrate
         "set_weights of an earlier state, a freshly constructed model. After construction and after EVERY op the "
         "property predicates are evaluated on the real model on a grid (24 base points incl. missing values x every "
         "constrained feature swept over in-range, keypoint, and far out-of-range values / all buckets): pairwise "
-        "monotonicity, categorical pairs, bounds for all points; plus every layer's assert_constraints(). For "
-        "single-lattice (all_vertices AND kronecker_factored) and linear models every weight is extracted after "
-        "construction, after the first op and after the last op (KFL: the layer's hyperparameters as the layer holds "
-        "them, kernel / scale / bias); Coq evaluates cal_lattice_eval / cal_kfl_eval / cal_linear_eval on 16 grid "
-        "points against model(x) (float32, 1e-5) and decides the hypotheses of the composition theorems on the "
-        "extracted structure (check_wiring; for KFL: kfl_feasible per (unit, term) relative to the sign of the scale, "
-        "fixed bias, monotonicity flags = feature flags, calibrators inside [0, L-1]). Two fixed kronecker_factored "
-        "models run hostile histories with new-style AND legacy (per-variable) SGD in every run. Non-trivial = the model is still non-constant on the grid after its last training "
-        "op (coverage of the hostile histories); distinct = distinct descs.")
+        "monotonicity, categorical pairs, bounds for all points; plus every layer's assert_constraints(). For EVERY "
+        "model every weight is extracted after construction, after the first op and after the last op (skipped for a "
+        "state whose weights exceed 1e3) and Coq evaluates the composed model on 16 grid points against model(x) "
+        "(float32, 1e-5): cal_lattice_eval / cal_kfl_eval / cal_linear_eval for single-lattice (all_vertices AND "
+        "kronecker_factored; KFL: the layer's hyperparameters as the layer holds them, kernel / scale / bias) and "
+        "linear models, ensemble2_eval for ensembles. Ensembles (explicit, 'random', 'rtl_layer', thorough: Crystals; "
+        "average or linear combination; shared or separate calibrators; with/without output calibration; Lattice or "
+        "KroneckerFactoredLattice members) are extracted by walking the KERAS GRAPH of the built model back from its "
+        "output, not from the configuration: output calibrator, combiner (keras Average / RTL average_outputs, or "
+        "kernel + bias of tfl_output_linear_combination; a plain Add is rendered as the sum it computes), the member "
+        "layers in the combiner's input order, and for every lattice dimension the tensor it receives followed through "
+        "the tf.identity pass-throughs to (calibration layer, output unit) and on to the model input = feature index; "
+        "for RTL the flattened input columns (sorted keys, units per feature), _rtl_structure, the per-monotonicity "
+        "lattice layers with their units, and the output order of RTL.call. Members carry the layer's own "
+        "lattice_sizes / interpolation / monotonicities / bounds. Coq then decides the hypotheses of the composition "
+        "theorems on the extracted structure (check_wiring): single models as before (KFL: kfl_feasible per (unit, "
+        "term) relative to the sign of the scale, fixed bias, monotonicity flags = feature flags, calibrators inside "
+        "[0, L-1]); ensembles with ens_ok (Model/PremadeCheck.v) at the float32 tolerance: every dimension reading an "
+        "increasing / decreasing / categorically ordered feature is a monotone dimension of its member (kernel "
+        "non-decreasing along it; KFL: flagged), its calibrator unit has the feature's direction / ordered pairs and "
+        "stays inside [0, size-1] with exact segment tables, kernels inside the bounds ([0,1] under an output "
+        "calibrator), KFL layers feasible with the model's bounds, combiner weights >= 0 and (bounded or "
+        "output-calibrated model) of sum one without bias, monotone bounded output calibrator, and - structures other "
+        "than RTL - no lattice reads a feature twice. C03_wiring_check_sound / C03_checked_ensemble_* prove that this "
+        "check at tolerance 0 implies the hypotheses of C03_ensemble_monotone_mixed / C03_ensemble_bounded_mixed and "
+        "hence monotonicity and bounds of ensemble2_eval for ALL inputs. Two fixed kronecker_factored models run "
+        "hostile histories with new-style AND legacy (per-variable) SGD, two fixed 'random' ensembles need the fill-up "
+        "pass of set_random_lattice_ensemble, in every run. Non-trivial = the model is still non-constant on the grid "
+        "after its last training op (coverage of the hostile histories); distinct = distinct descs.")
 TRUSTED = ["models: Model/Premade.v, Model/PremadeKFL.v (hand-written from premade.py / premade_lib.py build_* functions) "
            "on top of Model/PWLEval.v, Model/CategoricalEval.v, Model/LatticeInterp.v, Model/LinearEval.v, Model/KFL.v, "
            "Model/RTLStructure.v; constraint theorems C01/C04/C06/C07, evaluation theorems C02/C05/C20 and the RTL "
@@ -39,13 +59,22 @@ TRUSTED = ["models: Model/Premade.v, Model/PremadeKFL.v (hand-written from prema
            "copies values verbatim; a non-trainable KFL bias is never touched",
            "initial values satisfy their invariants (C10) is a hypothesis of C03_reachable_feasible_*; it is observed "
            "here on every freshly built model (assert_constraints + predicates; check_wiring for KFL)",
-           "kfl_ok (Harness/H_C03.v) decides kfl_feasible up to the float32 tolerance; it is a hand-written decision "
-           "procedure without a soundness lemma",
-           "ensembles (explicit / random / RTL / Crystals structure, lattice or KFL members) have composed Coq models "
-           "and theorems (ensemble_eval, ensemble2_eval, C03_rtl_ensemble_monotone*) but their weights are not "
-           "extracted: for them the tie is the implementation-side histories only; the Crystals prefitting itself "
-           "(which lattices are chosen) is C17's subject"]
-LIMITS = ["KFL members: C03_reachable_feasible_kfl covers updates that apply BOTH KFL constraints after kernel and scale "
+           "the wiring checks run at the float32 tolerance 1e-5 (and accept the all-zero combiner of known finding "
+           "D32, which the predicate on the implementation reports); soundness is proved for ensembles at tolerance 0 "
+           "(C03_wiring_check_sound, term_ok_sound / kfl_layer_ok_feasible for KFL members). check_wiring1 / kfl_ok "
+           "for SINGLE lattice / linear models (Harness/H_C03.v) use the same procedures but have no soundness lemma "
+           "of their own",
+           "ensemble extraction (harness/props/c03.py _extract_ensemble): Keras graph metadata (_keras_history, "
+           "layer.input, RTL._rtl_structure / _lattice_layers) is trusted to describe what model(x) computes; the "
+           "in-Coq comparison of ensemble2_eval with model(x) on 16 points per state checks it; RTL.call's flattening "
+           "and output order are mirrored by hand. A model whose graph has another shape is reported (class "
+           "'wiring'), not silently skipped. The Crystals prefitting itself (which lattices are chosen) is C17's subject"]
+LIMITS = ["ensembles: the Coq comparison and wiring check cover the three sampled states of every history (after "
+          "construction, first op, last op; not states with weights > 1e3); the states in between are judged by the "
+          "predicates on the implementation only. 'No lattice reads a feature twice' is checked for explicit / random "
+          "/ Crystals structures because set_random_lattice_ensemble promises it (C03_ensemble_monotone's "
+          "one-position hypothesis); the monotonicity theorems themselves (reads_monotone) do not need it",
+          "KFL members: C03_reachable_feasible_kfl covers updates that apply BOTH KFL constraints after kernel and scale "
           "received their raw values (every new-style optimizer, legacy optimizers with the layer's variable order). A "
           "legacy optimizer handed the kernel before the scale, or any optimizer handed only the scale variable, is NOT "
           "covered and really breaks monotonicity (C03_kfl_scale_moved_after_kernel_constraint_refuted; reproduced on "
@@ -213,6 +242,19 @@ def gen_descs(ctx):
                 dict(name="c", type="cat", nb=3, pairs=[[0, 1], [1, 2]], default=None, ls=2)],
       ops=[dict(op="fit", opt="sgd", lr=0.5, target="anti"), dict(op="fit", opt="sgd", lr=0.5, target="anti"),
            dict(op="fit", opt="sgd", lr=0.5, target="anti"), dict(op="fit", opt="sgd", lr=0.5, target="anti")], seed=0))
+  # 'random' structure whose lattices must be FILLED UP (3 lattices of rank 3 over 4 features: 5 of the 9 slots are
+  # drawn in the second pass of set_random_lattice_ensemble, which promises lattices without repeated features)
+  for rseed, sep in ((7, False), (8, True)):
+    out.append(dict(
+        model=dict(kind="ensemble", structure="random", param="all_vertices", interpolation="hypercube",
+                   output_calibration=False, random_seed=rseed, use_linear_combination=sep, separate_calibrators=sep,
+                   num_lattices=3, lattice_rank=3, output_min=-1.0, output_max=2.0, output_init=[-1.0, 2.0]),
+        features=[dict(name="a", type="num", mono="increasing", dir=1, kps=[0.0, 0.5, 1.0], default=None, ls=2),
+                  dict(name="b", type="num", mono="decreasing", dir=-1, kps=[-1.0, 0.0, 2.0], default=-8.0, ls=2),
+                  dict(name="c", type="cat", nb=3, pairs=[[0, 1], [1, 2]], default=-1, ls=2),
+                  dict(name="d", type="num", mono=0, dir=0, kps=[0.0, 1.0, 2.0], default=None, ls=2)],
+        ops=[dict(op="fit", opt="sgd", lr=5.0, target="anti"), dict(op="fit", opt="adam", lr=5.0, target="anti_big")],
+        seed=20 + rseed))
   # one-sided bound that is exactly 0.0 on a calibrated linear model without output calibration (seeded change
   # C03-m2: a truthiness test dropped the bound and built an unbounded model with a bias)
   out.append(dict(
@@ -518,34 +560,38 @@ def _f(x):
   return float(np.asarray(x, dtype=np.float64))
 
 
-def _pwl_tables(l):
+def _pwl_tables(l, u=0):
   kps = [float(v) for v in np.asarray(l._interpolation_keypoints).reshape(-1)]  # pylint: disable=protected-access
   lens = [float(v) for v in np.asarray(l._lengths).reshape(-1)]  # pylint: disable=protected-access
-  col = [float(v) for v in l.kernel.numpy()[:, 0]]
+  col = [float(v) for v in l.kernel.numpy()[:, u]]
   return kps, lens, col
+
+
+def _calib_term(l, f, u=0):
+  """Coq calib of unit u of the calibration layer l (feature desc f)."""
+  if f["type"] == "cat":
+    return "(CCat %s %s)" % (cql([float(v) for v in l.kernel.numpy()[:, u]]),
+                             "None" if l.default_input_value is None else "(Some (%d)%%Z)" % int(l.default_input_value))
+  kps, lens, col = _pwl_tables(l, u)
+  miss = "None"
+  if l.impute_missing:
+    miss = "(Some (%s, %s))" % (cq(float(l.missing_input_value)), cq(_f(l.missing_output.numpy().reshape(-1)[u])))
+  return "(CPwl %s %s %s %s)" % (cql(kps), cql(lens), cql(col), miss)
+
+
+def _feat_term(f):
+  """the FEATURE's configured monotonicity is the reference of the wiring check"""
+  if f["type"] == "cat":
+    return "(MPairs %s)" % cnatpairs(f["pairs"])
+  return "(MNum (%d)%%Z)" % int(f["dir"])
 
 
 def _extract(desc, model):
   layers = {l.name: l for l in model.layers}
   cals, feats = [], []
   for f in desc["features"]:
-    l = layers["tfl_calib_" + f["name"]]
-    if f["type"] == "cat":
-      cals.append("(CCat %s %s)" % (cql([float(v) for v in l.kernel.numpy()[:, 0]]),
-                                     "None" if l.default_input_value is None else "(Some (%d)%%Z)" % int(l.default_input_value)))
-      feats.append("(MPairs %s)" % cnatpairs(f["pairs"]))
-    else:
-      kps, lens, col = _pwl_tables(l)
-      miss = "None"
-      if l.impute_missing:
-        miss = "(Some (%s, %s))" % (cq(float(l.missing_input_value)), cq(_f(l.missing_output.numpy().reshape(-1)[0])))
-      cals.append("(CPwl %s %s %s %s)" % (cql(kps), cql(lens), cql(col), miss))
-      # canonical monotonicity as the calibrator layer holds it
-      mono = {"increasing": 1, "decreasing": -1, "none": 0}.get(str(l.monotonicity).lower(), l.monotonicity)
-      if f["dir"] == 0:
-        mono = 0  # the feature is unconstrained (an always_monotonic calibrator is not a feature constraint)
-      del mono
-      feats.append("(MNum (%d)%%Z)" % int(f["dir"]))  # the FEATURE's configured direction is the reference
+    cals.append(_calib_term(layers["tfl_calib_" + f["name"]], f))
+    feats.append(_feat_term(f))
   oc = "None"
   if "tfl_output_calib" in layers:
     oc = "(Some (%s, %s, %s))" % tuple(cql(t) for t in _pwl_tables(layers["tfl_output_calib"]))
@@ -562,14 +608,8 @@ def _extract(desc, model):
     l = layers["tfl_kronecker_factored_lattice_0"]
     kern = l.kernel.numpy()  # (1, L, units * dims, terms)
     assert l.units == 1 and not l.clip_inputs and kern.shape[0] == 1
-    monos = l.monotonicities
-    if monos is not None:
-      monos = [{"increasing": 1, "none": 0}.get(str(v).lower(), v) for v in monos]
-      monos = "(Some %s)" % clist([cbool(bool(int(v))) for v in monos])
-    else:
-      monos = "None"
     kfl = "(Some (mkKflW %s %s %s %s %s %s %s %s %s))" % (
-        cnat(l.lattice_sizes), monos, copt(l.output_min), copt(l.output_max), cnat(kern.shape[2]), cnat(kern.shape[3]),
+        cnat(l.lattice_sizes), _kfl_monos(l), copt(l.output_min), copt(l.output_max), cnat(kern.shape[2]), cnat(kern.shape[3]),
         clist([cqm([[float(v) for v in row] for row in mat]) for mat in kern[0]]),
         cqm([[float(v) for v in row] for row in l.scale.numpy()]), cql([float(v) for v in l.bias.numpy()]))
     lat = "Hypercube (@nil nat) (@nil (list Q)) (@nil Q) 0"
@@ -582,12 +622,186 @@ def _extract(desc, model):
   return lin, lat, clist(cals), oc, clist(feats), kfl
 
 
-def _coq_case(desc, model, rows, out, pick):
-  lin, lat, cals, oc, feats, kfl = _extract(desc, model)
+def _kfl_monos(l):
+  monos = l.monotonicities
+  if monos is None:
+    return "None"
+  monos = [{"increasing": 1, "none": 0}.get(str(v).lower(), v) for v in monos]
+  return "(Some %s)" % clist([cbool(bool(int(v))) for v in monos])
+
+
+# --------------------------------------------------------------------------
+# extraction + Coq rendering (ensembles): the wiring is read from the Keras graph of the built model, not from
+# the configuration
+# --------------------------------------------------------------------------
+class _Unmodelled(Exception):
+  pass
+
+
+def _hist(t):
+  h = t._keras_history  # pylint: disable=protected-access
+  return h.layer, h.tensor_index
+
+
+def _through_identities(t):
+  """Follows tf.identity pass-through nodes (TFOpLambda) back to the layer that produced the tensor."""
+  layer, k = _hist(t)
+  while type(layer).__name__ == "TFOpLambda":
+    fn = getattr(layer, "function", None)
+    if getattr(fn, "__name__", "") != "identity":
+      raise _Unmodelled("op layer %s (%s) between calibrator and lattice" % (layer.name, getattr(fn, "__name__", "?")))
+    inp = layer.input
+    if isinstance(inp, (list, tuple)):
+      raise _Unmodelled("op layer %s has %d inputs" % (layer.name, len(inp)))
+    layer, k = _hist(inp)
+  return layer, k
+
+
+def _feature_of(calib_layer, names):
+  """index (into the model's inputs = desc features) of the feature a calibration layer reads"""
+  src, _ = _hist(calib_layer.input)
+  if type(src).__name__ != "InputLayer" or not src.name.startswith("tfl_input_"):
+    raise _Unmodelled("calibration layer %s does not read a model input" % calib_layer.name)
+  return names.index(src.name[len("tfl_input_"):])
+
+
+def _as_list(x):
+  return list(x) if isinstance(x, (list, tuple)) else [x]
+
+
+def _lattice_member(desc, l, reads, u=0):
+  """Coq member2 of unit u of the Lattice / KroneckerFactoredLattice layer l; reads = [(feature index, calibration
+  layer, calibrator unit)] per lattice dimension, in the order the layer sees its inputs."""
+  feats = desc["features"]
+  idx = cnatl([i for i, _, _ in reads])
+  cals = clist([_calib_term(cl, feats[i], cu) for i, cl, cu in reads])
+  if type(l).__name__ == "Lattice":
+    if l.clip_inputs:
+      raise _Unmodelled("lattice %s clips its inputs" % l.name)
+    sc = "Hypercube" if l.interpolation == "hypercube" else "Simplex"
+    return "(MLat (mkMember %s %s %s %s %s))" % (
+        idx, cals, sc, cnatl(list(l.lattice_sizes)), cqm([[float(v)] for v in l.kernel.numpy()[:, u]]))
+  if type(l).__name__ == "KroneckerFactoredLattice":
+    kern = l.kernel.numpy()  # (1, L, units * dims, terms)
+    units = int(l.units)
+    dims = kern.shape[2] // units
+    par = "(MK.mkPar (MK.unpack %s %s %s %s %s) %s %s)" % (
+        cnat(l.lattice_sizes), cnat(units), cnat(dims), cnat(kern.shape[3]),
+        clist([cqm([[float(v) for v in row] for row in mat]) for mat in kern[0]]),
+        cqm([[float(v) for v in row] for row in l.scale.numpy()]), cql([float(v) for v in l.bias.numpy()]))
+    cfg = "(MK.mkCfg %s %s %s %s %s)" % (cnat(l.lattice_sizes), _kfl_monos(l), copt(l.output_min), copt(l.output_max),
+                                        cbool(bool(l.clip_inputs)))
+    return "(MKfl %s %s %s %s %s)" % (idx, cals, cfg, par, cnat(u))
+  raise _Unmodelled("ensemble member %s is a %s" % (l.name, type(l).__name__))
+
+
+def _explicit_members(desc, lattice_tensors, names):
+  """lattice_tensors: the tensors the combiner receives, in its order."""
+  members = []
+  for t in lattice_tensors:
+    l, _ = _hist(t)
+    reads = []
+    for x in _as_list(l.input):
+      cl, cu = _through_identities(x)
+      if type(cl).__name__ not in ("PWLCalibration", "CategoricalCalibration"):
+        raise _Unmodelled("lattice %s reads %s (%s)" % (l.name, cl.name, type(cl).__name__))
+      reads.append((_feature_of(cl, names), cl, cu))
+    members.append(_lattice_member(desc, l, reads))
+  return members
+
+
+def _rtl_members(desc, rtl, names):
+  """The lattices of a tfl.layers.RTL layer in the order of its (joint) output columns. Mirrors RTL.call: the inputs
+  are flattened key by key in sorted key order, every entry of _rtl_structure gathers its columns, the outputs of the
+  entries without a monotone dimension come first."""
+  x = rtl.input
+  if not isinstance(x, dict):
+    x = {"unconstrained": x}
+  flat = []  # flattened input column -> (feature index, calibration layer, unit)
+  for key in sorted(x.keys()):
+    for t in _as_list(x[key]):
+      cl, _ = _through_identities(t)
+      if type(cl).__name__ not in ("PWLCalibration", "CategoricalCalibration"):
+        raise _Unmodelled("RTL reads %s (%s)" % (cl.name, type(cl).__name__))
+      i = _feature_of(cl, names)
+      for u in range(int(t.shape[-1])):
+        flat.append((i, cl, u))
+  outs = [[], []]
+  for monotonicities, inputs_for_units in rtl._rtl_structure:  # pylint: disable=protected-access
+    l = rtl._lattice_layers[str(monotonicities)]  # pylint: disable=protected-access
+    if int(l.units) != len(inputs_for_units):
+      raise _Unmodelled("RTL entry %s: %d units for %d input groups" % (monotonicities, l.units, len(inputs_for_units)))
+    for u, cols in enumerate(inputs_for_units):
+      outs[max(monotonicities)].append(_lattice_member(desc, l, [flat[int(j)] for j in cols], u))
+  return outs[0] + outs[1]
+
+
+def _extract_ensemble(desc, model):
+  """(members, combiner, output calibrator) Coq terms of a built CalibratedLatticeEnsemble, walking the Keras graph
+  back from the model output."""
+  names = [f["name"] for f in desc["features"]]
+  if [n for n in model.input_names] != ["tfl_input_" + n for n in names]:
+    raise _Unmodelled("model inputs %r are not the features %r" % (model.input_names, names))
+  outs = _as_list(model.output)
+  if len(outs) != 1:
+    raise _Unmodelled("%d model outputs" % len(outs))
+  top, _ = _hist(outs[0])
+  oc = "None"
+  if type(top).__name__ == "PWLCalibration":
+    if top.impute_missing or int(top.units) != 1:
+      raise _Unmodelled("output calibrator with missing-value handling / units")
+    oc = "(Some (%s, %s, %s))" % tuple(cql(t) for t in _pwl_tables(top))
+    top, _ = _hist(top.input)
+  lin = None
+  if type(top).__name__ == "Linear":
+    lin = top
+    if lin.input_min is not None or lin.input_max is not None:
+      raise _Unmodelled("combiner Linear layer with input bounds")
+    top, _ = _hist(lin.input)
+  kind = type(top).__name__
+  if kind == "RTL":
+    members = _rtl_members(desc, top, names)
+    averaged = bool(top.average_outputs)
+    if top.separate_outputs:
+      raise _Unmodelled("RTL with separate outputs")
+  elif kind in ("Average", "Add", "Concatenate"):
+    members = _explicit_members(desc, _as_list(top.input), names)
+    averaged = kind == "Average"
+    if (kind == "Concatenate") != (lin is not None):
+      raise _Unmodelled("lattice outputs joined by %s %s a linear combination" % (kind, "with" if lin is not None else "without"))
+  else:
+    raise _Unmodelled("ensemble outputs combined by a %s layer" % kind)
+  if lin is not None:
+    if averaged:
+      raise _Unmodelled("linear combination of an averaged ensemble")
+    comb = "(LinComb %s %s)" % (cql([float(v) for v in lin.kernel.numpy()[:, 0]]),
+                                cq(_f(lin.bias.numpy()) if lin.use_bias else 0.0))
+  elif averaged:
+    comb = "Average"
+  else:  # a plain sum of the members (keras Add / RTL without averaging): rendered as what it computes
+    comb = "(LinComb %s %s)" % (cql([1.0] * len(members)), cq(0.0))
+  return clist(members), comb, oc
+
+
+def _coq_case_ensemble(desc, model, rows, out, pick):
   m = desc["model"]
+  members, comb, oc = _extract_ensemble(desc, model)
   pts = [[float(v) for v in rows[i]] for i in pick]
   outs = [float(out[i]) for i in pick]
-  return "mk %s %s %s %s %s %s %s %s %s %s" % (cbool(lin), lat, cals, oc, feats, copt(m["output_min"]),
+  multi = m["structure"] == "rtl_layer"  # RTL tiles its inputs; every other structure promises distinct features
+  return "Ens (mkE (mkEns %s %s %s %s %s %s %s) %s %s)" % (
+      members, comb, oc, clist([_feat_term(f) for f in desc["features"]]), copt(m["output_min"]), copt(m["output_max"]),
+      cbool(multi), cqm(pts), cql(outs))
+
+
+def _coq_case(desc, model, rows, out, pick):
+  m = desc["model"]
+  if m["kind"] == "ensemble":
+    return _coq_case_ensemble(desc, model, rows, out, pick)
+  lin, lat, cals, oc, feats, kfl = _extract(desc, model)
+  pts = [[float(v) for v in rows[i]] for i in pick]
+  outs = [float(out[i]) for i in pick]
+  return "Single (mk %s %s %s %s %s %s %s %s %s %s)" % (cbool(lin), lat, cals, oc, feats, copt(m["output_min"]),
                                                copt(m["output_max"]), cqm(pts), cql(outs), kfl)
 
 
@@ -601,8 +815,8 @@ def _run_history(desc):
   rs = np.random.RandomState(desc["seed"])
   data = _data(desc, rs)
   m = desc["model"]
-  # single-lattice (all_vertices AND kronecker_factored) and linear models have a composed Coq model
-  modelled = m["kind"] in ("lattice", "linear")
+  # single-lattice (all_vertices AND kronecker_factored), linear and ensemble models have a composed Coq model
+  modelled = True
   pick = list(range(0, 24, 3)) + [24 + 5 * j for j in range(8) if 24 + 5 * j < len(rows)]
   states = [model.get_weights()]
   coq_terms, all_fails = [], []
@@ -624,7 +838,10 @@ def _run_history(desc):
     if want_coq and modelled:
       big = max(float(np.abs(w).max()) for w in model.get_weights())
       if big <= 1e3:
-        coq_terms.append(_coq_case(desc, model, rows, out, pick))
+        try:
+          coq_terms.append(_coq_case(desc, model, rows, out, pick))
+        except _Unmodelled as e:
+          all_fails.append(("wiring", "%s: the built model is not wired as premade_lib's builders are modelled: %s" % (tag, e)))
     return out
 
   judge("after construction", True)
